@@ -49,7 +49,7 @@ where
         let start = record
             .variant_start()
             .transpose()?
-            .expect("missing variant start");
+            .ok_or_else(|| io::Error::new(io::ErrorKind::InvalidData, "missing position"))?;
 
         let end = record.variant_end(&header)?;
 
